@@ -422,6 +422,11 @@ inductive PageRes where
 /-- hashicorp LRU: `Add` puts the entry in front and evicts from the back. -/
 def lruAdd (cap : Nat) (c : WinMap) (k : Nat) (v : Agg) : WinMap := (c.put k v).take cap
 
+/-- `AggregatedBloomFilterCache.SetMany`: every filter is added under its own bounds. -/
+def setMany (cap : Nat) (c : WinMap) : List Agg → WinMap
+  | [] => c
+  | a :: as => setMany cap (lruAdd cap c a.from_ a) as
+
 /-- `loadNextWindow` for the window starting at `w`: the running filter if it is its window, else
 the cache (a hit moves the entry to the front), else the persisted window, which is then cached. -/
 def loadWindow (cfg : Cfg) (n : Node) (cache : WinMap) (w : Nat) : Except Err (Agg × WinMap) :=
